@@ -40,6 +40,11 @@ func c18AgentBinary(ev *vlib.Evidence, bin string, idx int) {
 		if r.Intn(2) == 0 {
 			pi := ethnode.PeerInfo{ID: p.NodeID, Name: "Geth/x", Caps: []string{"eth/63"}, Protocols: map[string]json.RawMessage{"eth": json.RawMessage(`{"version":63}`)}}
 			pi.Network.RemoteAddress = fmt.Sprintf("%s:%d", c18Hosts[r.Intn(len(c18Hosts))], 30303)
+			if f.kind == "geth" && r.Intn(2) == 0 {
+				// newer geth: the id field is a hash, the node key is only inside the enode URI
+				pi.ID = "hash" + p.Name
+				pi.Enode = "enode://" + p.NodeID + "@" + pi.Network.RemoteAddress
+			}
 			f.peers = append(f.peers, pi)
 		}
 	}
@@ -64,7 +69,7 @@ func c18AgentBinary(ev *vlib.Evidence, bin string, idx int) {
 	defer nsrv.Stop()
 	// the pool's script
 	strict := r.Intn(2) == 0
-	target := r.Intn(7)
+	target := vlib.Pick(r, 0, 0, -1, 1, 2, 3, 5, 6) // a target of zero (or less) asks for nothing
 	var active, invalid []string
 	for _, p := range universe {
 		switch r.Intn(4) {
